@@ -236,6 +236,7 @@ fn concurrent(limit: usize, nthreads: usize, rounds: usize, ops_per_round: usize
     // not only at the quiescent points)
     let live_now = Arc::new(std::sync::atomic::AtomicUsize::new(0));
     let over = Arc::new(std::sync::atomic::AtomicUsize::new(0));
+    let died: Arc<Mutex<Vec<String>>> = Arc::new(Mutex::new(vec![]));
     let mut handles = vec![];
     for t in 0..nthreads {
         let a = a.clone();
@@ -243,11 +244,14 @@ fn concurrent(limit: usize, nthreads: usize, rounds: usize, ops_per_round: usize
         let live_total = live_total.clone();
         let live_now = live_now.clone();
         let over = over.clone();
+        let died = died.clone();
         handles.push(std::thread::spawn(move || {
             let mut rng = Rng::new(seed.wrapping_add(t as u64 * 7919));
             let mut blocks: Vec<(usize, Layout)> = vec![];
             let mut nops = 0u64;
             for _ in 0..rounds {
+                // a worker that dies (a panic inside the allocator) must not leave the others waiting at the barrier
+                let round = std::panic::catch_unwind(std::panic::AssertUnwindSafe(|| {
                 for _ in 0..ops_per_round {
                     nops += 1;
                     let sz = match rng.below(6) { 0 => 1, 1 => 16, 2 => limit / 2, 3 => limit, 4 => limit + 1, _ => 1 + rng.below((limit / nthreads.max(1)) as u64 + 1) as usize };
@@ -287,6 +291,11 @@ fn concurrent(limit: usize, nthreads: usize, rounds: usize, ops_per_round: usize
                         _ => {}
                     }
                 }
+                }));
+                if let Err(e) = round {
+                    let msg = e.downcast_ref::<&str>().map(|s| s.to_string()).or_else(|| e.downcast_ref::<String>().cloned()).unwrap_or_default();
+                    died.lock().unwrap().push(msg);
+                }
                 live_total.lock().unwrap()[t] = blocks.iter().map(|b| b.1.size()).sum();
                 barrier.wait(); // quiescent: main thread inspects
                 barrier.wait();
@@ -316,7 +325,10 @@ fn concurrent(limit: usize, nthreads: usize, rounds: usize, ops_per_round: usize
         barrier.wait();
     }
     let mut total = 0;
-    for h in handles { total += h.join().unwrap(); }
+    for h in handles { total += h.join().unwrap_or(0); }
+    for msg in died.lock().unwrap().iter().take(3) {
+        viol.push(serde_json::json!({"property":"C19","what":format!("concurrent: a thread panicked inside the allocator: {} (threads={}, seed={})", msg, nthreads, seed)}));
+    }
     let worst = over.load(std::sync::atomic::Ordering::SeqCst);
     if worst > limit {
         viol.push(serde_json::json!({"property":"C19","what":format!("concurrent: {} bytes were granted at the same time, above the limit {} (threads={}, seed={})", worst, limit, nthreads, seed)}));
@@ -408,15 +420,17 @@ pub fn run(o: &Opts) -> i32 {
         let a = Arc::new(Alloc::new(1 << 30));
         let phase = Arc::new(AtomicUsize::new(0));
         let acks = Arc::new(AtomicUsize::new(0));
+        let panicked = Arc::new(AtomicUsize::new(0));
         let rounds = if o.thorough { 200_000 } else { 24_000 } / n;
-        let hs: Vec<_> = (0..n).map(|t| { let (a, phase, acks) = (a.clone(), phase.clone(), acks.clone()); std::thread::spawn(move || {
+        let hs: Vec<_> = (0..n).map(|t| { let (a, phase, acks, panicked) = (a.clone(), phase.clone(), acks.clone(), panicked.clone()); std::thread::spawn(move || {
             let l = Layout::from_size_align(16usize << (t % 8), 8).unwrap();
             for r in 0..rounds {
                 wait_for(&phase, 2 * r + 1);
-                let p = unsafe { a.alloc(l) };
+                let p = std::panic::catch_unwind(std::panic::AssertUnwindSafe(|| unsafe { a.alloc(l) } as usize)).unwrap_or(usize::MAX);
                 acks.fetch_add(1, SeqCst);
                 wait_for(&phase, 2 * r + 2);
-                if !p.is_null() { unsafe { a.dealloc(p, l) }; }
+                if p != 0 && p != usize::MAX { let _ = std::panic::catch_unwind(std::panic::AssertUnwindSafe(|| unsafe { a.dealloc(p as *mut u8, l) })); }
+                if p == usize::MAX { panicked.fetch_add(1, SeqCst); }
                 acks.fetch_add(1, SeqCst);
             }
         }) }).collect();
@@ -431,7 +445,8 @@ pub fn run(o: &Opts) -> i32 {
             phase.store(2 * r + 2, SeqCst);
             wait_for(&acks, (2 * r + 2) * n);
         }
-        for h in hs { h.join().unwrap(); }
+        for h in hs { let _ = h.join(); }
+        if panicked.load(SeqCst) > 0 { cviol.push(serde_json::json!({"property":"C19","what":format!("concurrent: the allocator panicked {} times while {} threads allocated at the same instant", panicked.load(SeqCst), n)})); }
         cops += (rounds * n * 2) as u64;
         cruns += 1;
     }
@@ -461,7 +476,12 @@ pub fn run(o: &Opts) -> i32 {
                 }
             }
         }) }).collect();
-        for h in hs { h.join().unwrap(); }
+        for h in hs {
+            if let Err(e) = h.join() {
+                let msg = e.downcast_ref::<&str>().map(|s| s.to_string()).or_else(|| e.downcast_ref::<String>().cloned()).unwrap_or_default();
+                cviol.push(serde_json::json!({"property":"C19","what":format!("contention: a thread panicked inside the allocator: {} ({} threads)", msg, n)}));
+            }
+        }
         cops += (n * iters) as u64; cruns += 1;
         let w = worst.load(std::sync::atomic::Ordering::SeqCst);
         if w > limit { cviol.push(serde_json::json!({"property":"C19","what":format!("contention: {} bytes were granted at the same time, above the limit {} ({} threads each asking for more than half of the limit)", w, limit, n)})); }
